@@ -31,29 +31,30 @@ Definition hls_feed_plain (c : cfg) (now : Z) (h : hstate) (e : tsev) : hstate :
   h_step h m1 ops.
 
 (* closeFragment(false); openFragment(ts, discont) - and, inside openFragment,
-   observer.OnFragmentOpen(): the pending frames come in now *)
+   observer.OnFragmentOpen(): the pending frames come in now.  The third
+   component says whether OnFragmentOpen was called. *)
 Definition reopen_obs (c : cfg) (h : hstate) (ts : Z) (doit discont : bool) (now : Z) (pending : list tsev)
-  : hstate * list tsev :=
+  : hstate * list tsev * bool :=
   if doit then
     let '(m1, o1) := close_fragment c (h_mux h) (h_fs h) false in
     let h1 := h_step h m1 o1 in
     let '(m2, o2) := open_fragment c m1 ts discont now in
     let h2 := h_step h1 m2 o2 in
-    (fold_left (hls_feed_plain c now) pending h2, [])
-  else (h, pending).
+    (fold_left (hls_feed_plain c now) pending h2, [], true)
+  else (h, pending, false).
 
 Definition with_mux (h : hstate) (m : mux) : hstate := mk_hstate m (h_fs h) (h_ops h).
 
 Definition update_fragment_obs (c : cfg) (h : hstate) (ts : Z) (boundary : bool) (now : Z) (pending : list tsev)
-  : hstate * list tsev :=
+  : hstate * list tsev * bool :=
   let m := h_mux h in
   if m_opened m then
     let fslot := slot c m (m_nfrags m) in
-    let '(h1, p1) := if force_split c m ts then reopen_obs c h ts true true now pending else (h, pending) in
+    let '(h1, p1, c1) := if force_split c m ts then reopen_obs c h ts true true now pending else (h, pending, false) in
     let m2 := upd_dur (h_mux h1) fslot ts in
     let h2 := with_mux h1 m2 in
-    if f_ltb (fi_dur (get_slot m2 fslot)) (frag_target c) then (h2, p1)
-    else reopen_obs c h2 ts boundary false now p1
+    if f_ltb (fi_dur (get_slot m2 fslot)) (frag_target c) then (h2, p1, c1)
+    else let '(h3, p3, c3) := reopen_obs c h2 ts boundary false now p1 in (h3, p3, c1 || c3)
   else reopen_obs c h ts boundary true now pending.
 
 Definition ev_ts (e : tsev) : Z :=
@@ -61,13 +62,12 @@ Definition ev_ts (e : tsev) : Z :=
 
 (* FeedMpegts of [e] during which FlushAudio produced [nested] *)
 Definition hls_feed_obs (c : cfg) (now : Z) (h : hstate) (e : tsev) (nested : list tsev) : hstate :=
-  let '(h1, _) := update_fragment_obs c h (ev_ts e) (te_boundary e) now nested in
+  let '(h1, _, _) := update_fragment_obs c h (ev_ts e) (te_boundary e) now nested in
   if m_opened (h_mux h1) then h_step h1 (h_mux h1) [OWrite (m_cur (h_mux h1)) (ev_bytes e)] else h1.
 
 (* does FeedMpegts of [e] open a fragment (and so call OnFragmentOpen)? *)
 Definition hls_opens (c : cfg) (now : Z) (h : hstate) (e : tsev) : bool :=
-  let '(h1, _) := update_fragment_obs c h (ev_ts e) (te_boundary e) now [] in
-  Nat.ltb (length (m_hist (h_mux h))) (length (m_hist (h_mux h1))).
+  snd (update_fragment_obs c h (ev_ts e) (te_boundary e) now []).
 
 (* ---- HTTP-TS subscribers ---- *)
 Record tssub := mk_tssub { u_id : N; u_fresh : bool; u_wait : bool; u_out : bytes }.
@@ -113,29 +113,34 @@ Section Cfg.
     mk_gstate (if hls then Some (mk_hstate (new_mux c) [] [OMkdirAll PDir]) else None) [] None 0%Z.
 
   (* the events, hls.Clock showing the event index; then the publisher leaves:
-     Rtmp2MpegtsRemuxer.Dispose, hls.Muxer.Dispose *)
-  Fixpoint g_run (x : remuxer) (g : gstate) (evs : list gevent) : remuxer * gstate :=
+     Rtmp2MpegtsRemuxer.Dispose, hls.Muxer.Dispose.  The remuxer's outputs are
+     returned as well (for the theorems; the consumers' view is in the state). *)
+  Fixpoint g_run (x : remuxer) (g : gstate) (evs : list gevent) : remuxer * gstate * list tsout :=
     match evs with
-    | [] => (x, g)
+    | [] => (x, g, [])
     | e :: t =>
-      let '(x1, g1) :=
+      let '(x1, g1, o1) :=
         match e with
-        | GMsg m => let '(x', g', _) := feed_rtmp_message gstate g_decide g_apply g_onpatpmt x g m in (x', g')
-        | GJoinTs id => (x, mk_gstate (g_hls g) (g_subs g ++ [mk_tssub id true true []]) (g_patpmt g) (g_now g))
-        | GNop => (x, g)
+        | GMsg m => feed_rtmp_message gstate g_decide g_apply g_onpatpmt x g m
+        | GJoinTs id => (x, mk_gstate (g_hls g) (g_subs g ++ [mk_tssub id true true []]) (g_patpmt g) (g_now g), [])
+        | GNop => (x, g, [])
         end in
-      g_run x1 (mk_gstate (g_hls g1) (g_subs g1) (g_patpmt g1) (g_now g1 + 1)%Z) t
+      let '(x2, g2, o2) := g_run x1 (mk_gstate (g_hls g1) (g_subs g1) (g_patpmt g1) (g_now g1 + 1)%Z) t in
+      (x2, g2, o1 ++ o2)
     end.
 
-  Definition g_finish (x : remuxer) (g : gstate) : gstate :=
-    let '(_, g1, _) := remuxer_dispose gstate g_decide g_apply x g in
+  Definition g_finish (x : remuxer) (g : gstate) : gstate * list tsout :=
+    let '(_, g1, o1) := remuxer_dispose gstate g_decide g_apply x g in
     match g_hls g1 with
     | Some h =>
       let '(m', ops) := close_fragment c (h_mux h) (h_fs h) true in
-      mk_gstate (Some (h_step h m' ops)) (g_subs g1) (g_patpmt g1) (g_now g1)
-    | None => g1
+      (mk_gstate (Some (h_step h m' ops)) (g_subs g1) (g_patpmt g1) (g_now g1), o1)
+    | None => (g1, o1)
     end.
 
-  Definition group_run (hls : bool) (evs : list gevent) : gstate :=
-    let '(x, g) := g_run remuxer_init (g_init hls) evs in g_finish x g.
+  Definition group_run_outs (hls : bool) (evs : list gevent) : gstate * list tsout :=
+    let '(x, g, o1) := g_run remuxer_init (g_init hls) evs in
+    let '(g', o2) := g_finish x g in (g', o1 ++ o2).
+
+  Definition group_run (hls : bool) (evs : list gevent) : gstate := fst (group_run_outs hls evs).
 End Cfg.
